@@ -32,6 +32,18 @@ func (u *Unit) val(s *State, v ssa.Value) Term {
 	if t, ok := s.regs[v]; ok {
 		return t
 	}
+	if g, ok := v.(*ssa.Global); ok {
+		// the address of a package-level variable used as a pointer value: a fixed non-nil address
+		// (accesses through this pointer and through the variable itself are not related by the model)
+		t := u.declOnce("gaddr."+cellName(g), "Int")
+		t.T = v.Type()
+		if !u.declared["gaddr:"+t.S] {
+			u.declared["gaddr:"+t.S] = true
+			s.assume(fmt.Sprintf("(and (> %s 0) (<= %s allocbase))", t.S, t.S))
+		}
+		u.note("address of package-level variable %s taken: aliasing with the variable itself is not modelled", cellName(g))
+		return t
+	}
 	switch v.(type) {
 	case *ssa.Alloc, *ssa.Global, *ssa.FreeVar:
 		// address of a cell used as a value: should have been classified as escaping
@@ -387,6 +399,27 @@ func (u *Unit) execInstrs(s *State, fn *ssa.Function, b *ssa.BasicBlock, start i
 			k(s, rets, x.Pos())
 			return
 		case *ssa.Panic:
+			if fc := u.p.contractFor(fn); fc != nil {
+				done := false
+				for _, c := range fc.Clauses {
+					if c.Kind != "at-panic" {
+						continue
+					}
+					// a documented refusal: the panic may be reached only under the stated condition
+					env := u.bodyEnv(s, fn)
+					env.paramsEntry = fn == u.fn
+					g, err := env.formula(c.Expr)
+					if err != nil {
+						panic(abortUnit{fmt.Sprintf("%s:%d: %v", c.File, c.Line, err)})
+					}
+					u.oblige(s, fmt.Sprintf("%s.at.panic#%d", labelWithFn(c.Label, u.fnShort(fn)), u.ordinal(in)), c.Props, "at-panic", g, in.Pos())
+					done = true
+				}
+				if done {
+					u.npaths++
+					return
+				}
+			}
 			if u.allowPanic(fn) {
 				u.npaths++
 				return
@@ -404,10 +437,26 @@ func (u *Unit) execInstrs(s *State, fn *ssa.Function, b *ssa.BasicBlock, start i
 				u.execBlock(s, fn, b.Succs[1], b, k)
 				return
 			}
+			// cheap pruning: the condition or its negation is literally on the path already
+			neg := "(not " + c.S + ")"
+			pos := c.S
+			if strings.HasPrefix(c.S, "(not ") && strings.HasSuffix(c.S, ")") {
+				neg = c.S[5 : len(c.S)-1]
+			}
+			for i := len(s.pc) - 1; i >= 0; i-- {
+				if s.pc[i] == pos {
+					u.execBlock(s, fn, b.Succs[0], b, k)
+					return
+				}
+				if s.pc[i] == neg {
+					u.execBlock(s, fn, b.Succs[1], b, k)
+					return
+				}
+			}
 			s2 := s.clone()
 			s.assume(c.S)
 			u.execBlock(s, fn, b.Succs[0], b, k)
-			s2.assume("(not " + c.S + ")")
+			s2.assume(neg)
 			u.execBlock(s2, fn, b.Succs[1], b, k)
 			return
 		case *ssa.Jump:
@@ -570,16 +619,23 @@ func (u *Unit) havocLoop(s *State, fn *ssa.Function, l *Loop) {
 }
 
 func (u *Unit) havocGhostIfCalls(s *State, l *Loop) {
-	has := false
+	// ghost variables that calls inside the loop may set ("*" = unknown code may run)
+	may := map[string]bool{}
 	for b := range l.body {
 		for _, in := range b.Instrs {
-			if _, ok := in.(ssa.CallInstruction); ok {
-				has = true
+			if mc, ok := in.(*ssa.MakeClosure); ok {
+				for k := range u.p.ghostsSetBy(mc.Fn.(*ssa.Function)) {
+					may[k] = true
+				}
+			}
+			ci, ok := in.(ssa.CallInstruction)
+			if !ok {
+				continue
+			}
+			for k := range u.p.ghostsSetByCall(ci.Common()) {
+				may[k] = true
 			}
 		}
-	}
-	if !has {
-		return
 	}
 	var keys []string
 	for k := range s.ghost {
@@ -587,8 +643,21 @@ func (u *Unit) havocGhostIfCalls(s *State, l *Loop) {
 	}
 	sort.Strings(keys)
 	for _, k := range keys {
+		if !may["*"] && !may[k] {
+			continue
+		}
+		if strings.HasPrefix(k, "$seen") {
+			// maintained by the engine at Next; havocked like any loop-carried ghost
+		}
 		g := s.ghost[k]
 		s.ghost[k] = Term{S: u.fresh("hv.ghost."+k, g.Sort).S, Sort: g.Sort}
+	}
+	// engine-maintained watch flags are loop-carried state of the iteration itself
+	for _, k := range keys {
+		if strings.HasPrefix(k, "$seen") && !may["*"] && !may[k] {
+			g := s.ghost[k]
+			s.ghost[k] = Term{S: u.fresh("hv.ghost."+k, g.Sort).S, Sort: g.Sort}
+		}
 	}
 }
 
@@ -641,6 +710,9 @@ func (u *Unit) step(s *State, in ssa.Instruction) {
 			t := u.load(s, u.addrOf(s, x.X))
 			t.T = x.Type()
 			s.regs[x] = t
+			if _, isSt := x.Type().Underlying().(*types.Struct); isSt && strings.Contains(t.S, "select") {
+				u.typeInvariant(s, t, x.Type())
+			}
 			if _, isPtr := x.Type().Underlying().(*types.Pointer); isPtr && t.Sort == "Int" && strings.HasPrefix(t.S, "(") {
 				// a pointer read from memory refers to an object that exists already
 				s.assume(fmt.Sprintf("(<= %s (+ allocbase %d))", t.S, s.nalloc))
@@ -908,6 +980,7 @@ func (u *Unit) lookup(s *State, x *ssa.Lookup) {
 		vals, pres := u.mheap(s, ks, vs)
 		present := fmt.Sprintf("(and (not (= %s 0)) (select (select %s %s) %s))", m.S, pres.S, m.S, kk.S)
 		v := Term{fmt.Sprintf("(ite %s (select (select %s %s) %s) %s)", present, vals.S, m.S, kk.S, u.ss.zero(xt.Elem()).S), vs, xt.Elem()}
+		u.typeInvariant(s, Term{S: fmt.Sprintf("(select (select %s %s) %s)", vals.S, m.S, kk.S), Sort: vs, T: xt.Elem()}, xt.Elem())
 		if x.CommaOk {
 			s.tups[x] = []Term{v, {S: present, Sort: "Bool"}}
 		} else {
@@ -1078,6 +1151,18 @@ func (u *Unit) closureRequires(s *State, mc *ssa.MakeClosure, fn *ssa.Function) 
 	}
 	for _, c := range fc.Clauses {
 		if c.Kind != "requires" && c.Kind != "closure-invariant" {
+			continue
+		}
+		mentionsParam := false
+		for _, id := range identRe.FindAllString(c.Expr, -1) {
+			for _, prm := range fn.Params {
+				if prm.Name() == id {
+					mentionsParam = true
+				}
+			}
+		}
+		if mentionsParam && c.Kind == "requires" {
+			u.note("precondition %s of closure %s speaks about its parameters; it is an assumption about the caller of the closure (e.g. filepath.Walk), not checked at creation", c.Label, u.fnShort(fn))
 			continue
 		}
 		env := &Env{u: u, s: s, old: s, names: map[string]Term{}, fn: fn, pkg: fn.Pkg}
